@@ -2,6 +2,8 @@ import Rangers.Model.RLP
 import Rangers.Model.RLPTyped
 import Rangers.Proofs.RLPKindRefine
 import Rangers.Proofs.RLPTypedFuel
+import Rangers.Proofs.RLPStreamRefine
+import Rangers.Proofs.RLPStreamRefine2
 /-!
 # C08 — the decoders agree with each other
 
@@ -75,5 +77,103 @@ theorem any_accepts_canonical (b : Bytes) (v : Val) (h : decodeTy .any b = .ok v
       rw [hr, List.append_nil] at he2
       rw [he2]; exact he1
     · cases h
+
+/-! ## The `Stream` state machine refines the slice parser, at any nesting depth
+
+State: a `DecodeBytes`-style stream (`limited`, `remaining = len(inp)`) positioned at an element
+boundary (`kind = none`) with any stack of open lists; the *visible window* is what the innermost
+list (or the input limit) still allows: `inp.take (avail stack len)`. -/
+
+/-- `Kind()` returns exactly the header the slice parser `readHead` finds in the visible window (kind,
+    size; 0 for a single byte), consumes exactly the header bytes from reader, list position and
+    input budget, and caches it without error. -/
+theorem stream_kind_refines_readHead (s : Stream) (x : UInt8) (tl : Bytes) (st : List (Nat × Nat))
+    (k : Kind) (ts cs : Nat) (hc : Core s (x :: tl) st) (hk : s.kind = none)
+    (ha1 : 1 ≤ avail st (x :: tl).length) (hav : avail st (x :: tl).length ≤ (x :: tl).length)
+    (hh : readHead ((x :: tl).take (avail st (x :: tl).length)) = .ok (k, ts, cs)) :
+    (sKind s).1 = .ok (k, kSize k cs) ∧
+    Core (sKind s).2 ((x :: tl).drop (hdrLen k ts)) (bump st (hdrLen k ts)) ∧
+    (sKind s).2.kind = some k ∧ (sKind s).2.kinderr = none :=
+  let ⟨h1, h2, h3, _, h5, _⟩ := sKind_ok hc hk ha1 hav hh
+  ⟨h1, h2, h3, h5⟩
+
+/-- `Bytes()` returns exactly the content the slice parser delimits and leaves the stream at the next
+    element boundary (reader, list position and budget advanced by header + content, `Kind` re-armed). -/
+theorem stream_bytes_refines (s : Stream) (x : UInt8) (tl : Bytes) (st : List (Nat × Nat))
+    (k : Kind) (ts cs : Nat) (hc : Core s (x :: tl) st) (hk : s.kind = none)
+    (ha1 : 1 ≤ avail st (x :: tl).length) (hav : avail st (x :: tl).length ≤ (x :: tl).length)
+    (hh : readHead ((x :: tl).take (avail st (x :: tl).length)) = .ok (k, ts, cs)) (hnl : k ≠ .list)
+    (hcanon : ¬ (k = .string ∧ cs = 1 ∧ headLt128 (((x :: tl).take (avail st (x :: tl).length)).drop ts) = true)) :
+    (sBytes s).1 = .ok ((((x :: tl).take (avail st (x :: tl).length)).drop ts).take cs) ∧
+    Core (sBytes s).2 ((x :: tl).drop (ts + cs)) (bump st (ts + cs)) ∧ (sBytes s).2.kind = none :=
+  sBytes_ok hc hk ha1 hav hh hnl hcanon
+
+-- non-vacuity: inside an open list with one byte already consumed
+example : Core (runOps [.list, .bytes] (newStream [0xc4, 0x01, 0x82, 0xaa, 0xbb] 0)) [0x82, 0xaa, 0xbb] [(1, 4)] :=
+  ⟨rfl, rfl, rfl, rfl⟩
+example : (sBytes (runOps [.list, .bytes] (newStream [0xc4, 0x01, 0x82, 0xaa, 0xbb] 0))).1 = .ok [0xaa, 0xbb] := by rfl
+
+/-- The state machine refines the pure decoder, from any element boundary at any nesting depth:
+    if `decodeItem`'s recursive descent accepts the visible window as `(it, rest)`, generic decoding
+    through the Stream methods (`Kind`, `List`, `Bytes`, `ListEnd`, the element loop) returns `it` and
+    leaves reader, list positions and input budget advanced by exactly the bytes of the item. -/
+theorem stream_refines_decodeItem_at (f : Nat) (s : Stream) (inp : Bytes) (st : List (Nat × Nat)) (it : Item)
+    (rest : Bytes) (hc : Core s inp st) (hk : s.kind = none) (hav : avail st inp.length ≤ inp.length)
+    (h : decItemF f (inp.take (avail st inp.length)) = .ok (it, rest)) :
+    ∃ n, n + rest.length = avail st inp.length ∧ (sDecodeAny (f + 1) s).1 = .ok it ∧
+      Core (sDecodeAny (f + 1) s).2 (inp.drop n) (bump st n) ∧ (sDecodeAny (f + 1) s).2.kind = none :=
+  (stream_refines f).1 s inp st it rest hc hk hav h
+
+/-- … and the element loop inside an open list yields exactly the items of the list payload, ending
+    at the end of the list (`pos = size`), so `ListEnd` succeeds. -/
+theorem stream_elements_refine (f : Nat) (s : Stream) (inp : Bytes) (p sz : Nat) (r : List (Nat × Nat))
+    (xs : List Item) (hc : Core s inp ((p, sz) :: r)) (hk : s.kind = none) (hav : sz - p ≤ inp.length)
+    (hps : p ≤ sz) (h : decItemsF f (inp.take (sz - p)) = .ok xs) :
+    (sAnyElems (f + 1) s).1 = .ok xs ∧ Core (sAnyElems (f + 1) s).2 (inp.drop (sz - p)) ((sz, sz) :: r) ∧
+      (sAnyElems (f + 1) s).2.kind = none :=
+  (stream_refines f).2 s inp p sz r xs hc hk hav hps h
+
+/-- `DecodeBytes(b, &interface{})` through the `Stream` state machine accepts everything the pure
+    decoder accepts, with the same item (and `encode_decode` makes that item's encoding `b`). -/
+theorem stream_refines_decodeItem (b : Bytes) (it : Item) (h : decodeBytes b = .ok it) :
+    sDecodeBytesAny b = .ok it := by
+  unfold decodeBytes at h
+  cases hd : decodeItem b with
+  | error e => rw [hd] at h; cases h
+  | ok t =>
+    obtain ⟨it', rest⟩ := t
+    rw [hd] at h
+    simp only at h
+    split at h
+    · rename_i he
+      injection h with h; subst h
+      have hr : rest = [] := by simpa using he
+      subst hr
+      have hcore : Core (newStream b b.length) b [] := ⟨rfl, by simp [newStream], rfl, rfl⟩
+      have hm := dec_mono_le (show itemFuel b ≤ 2 * b.length + 3 by unfold itemFuel; omega) b _ hd (by simp)
+      have hw : b.take (avail [] b.length) = b := by simp [avail]
+      obtain ⟨n, hn, a1, a2, _⟩ := (stream_refines (2 * b.length + 3)).1 (newStream b b.length) b [] it' [] hcore rfl
+        (by simp [avail]) (by rw [hw]; exact hm)
+      unfold sDecodeBytesAny anyFuel
+      have hinp : (newStream b b.length).inp = b := rfl
+      rw [hinp]
+      cases hr : sDecodeAny (2 * b.length + 4) (newStream b b.length) with
+      | mk res s1 =>
+        rw [hr] at a1 a2
+        simp only at a1 a2
+        subst a1
+        simp only
+        have : s1.inp = [] := by
+          rw [a2.inp_eq]
+          simp only [avail, List.length_nil, Nat.add_zero] at hn
+          rw [hn]; simp
+        simp [this]
+    · cases h
+
+
+-- non-vacuity (through the theorem: evaluating the state machine by `rfl` is needlessly expensive)
+set_option maxRecDepth 8192 in
+example : sDecodeBytesAny [0xc4, 0x01, 0xc1, 0x80, 0x05] = .ok (.list [.str [1], .list [.str []], .str [5]]) :=
+  stream_refines_decodeItem _ _ (by rfl)
 
 end Rangers.Props.C08
